@@ -146,7 +146,6 @@ def make_partition_class(kind, K=3, rng=None, observer=None, pre_observer=None):
         _observer = observer
         _pre_observer = pre_observer
         _glog = []          # every make_children call of every instance of this class, in order
-        _instances = []
 
         def __init__(self, domain=None, node=P_node):
             if kind in ("kary", "randKary"):
@@ -155,8 +154,7 @@ def make_partition_class(kind, K=3, rng=None, observer=None, pre_observer=None):
                 base.__init__(self, domain=domain, node=node)
             self.root._vid = 0
             self._all = [self.root]
-            self._calls = []
-            Instr._instances.append(self)
+            self._calls = []            # (no registry of instances: a partition nobody refers to any more is freed)
 
         def make_children(self, parent, newlayer=False):
             orig = self.node
